@@ -157,6 +157,15 @@ def step (line : String) : String :=
     else match ofHex raw with
       | some b => (ProtoCrit.checkCritical Gen.Proto.messages Gen.Proto.enums ty b).toString
       | none => "bad-op"
+  | ["rlpbind", canonTx, raw] =>
+    -- VerifyRLPBytes: the submitted wrapper is bound to the raw Ethereum transaction iff its canonical
+    -- bytes are those of the wrapper the conversion yields (digest over the WHOLE transaction)
+    match ofHex canonTx, ofHex raw with
+    | some c, some b =>
+      match decodeTx b with
+      | some t => if canon t == c then "bound" else "unbound"
+      | none => "err"
+    | _, _ => "bad-op"
   | ["preflight", raw] =>
     match ofHex raw with
     | some b => if preflight b then "ok" else "err"
